@@ -1,4 +1,4 @@
-import PicoModel.Spec
+import PicoModel.WellTyped
 import PicoModel.Small
 /-
 Line-protocol driver for the correspondence check: one operation per input line, one canonical
@@ -242,6 +242,9 @@ def exec (S : Schema) (ts : List String) : Option (Schema × String) :=
     let (id, _) ← nat rest
     pure (S, showVal (Gen2.zeroMsg S id))
   | "supported" :: _ => pure (S, b2s S.supported)
+  | "wt" :: rest => do
+    let ((st, id, v), _) ← (do let st ← nat; let id ← nat; let v ← pVal; pure (st, id, v) : P _) rest
+    pure (S, b2s (wtMsg S (st != 0) id v))
   | ["varint", n] => do pure (S, hexOf (varint (← n.toNat?)))
   | ["cvarint", h] => do let r := consumeVarint (← unhex h); pure (S, s!"{r.1} {r.2}")
   | ["sizevarint", n] => do pure (S, toString (sizeVarint (← n.toNat?)))
